@@ -44,6 +44,9 @@ impl Stmt {
 pub struct Scenario {
     /// seed of the only entropy source the process has (see entropy.rs)
     pub entropy: u64,
+    /// hook H3: (segment size in chunks, chunk capacity in rows) of tables
+    /// created in this world; None = the engine's constants (16, 2048)
+    pub table_dims: Option<(usize, usize)>,
     pub sessions: Vec<Vec<Stmt>>,
     pub disk: SimDisk,
     pub fs: FsPlan,
@@ -52,7 +55,7 @@ pub struct Scenario {
 
 impl Scenario {
     pub fn single(script: Vec<Stmt>) -> Scenario {
-        Scenario { entropy: 1, sessions: vec![script], disk: SimDisk::default(), fs: FsPlan::default(), sim: SimConfig::default() }
+        Scenario { entropy: 1, table_dims: None, sessions: vec![script], disk: SimDisk::default(), fs: FsPlan::default(), sim: SimConfig::default() }
     }
 }
 
@@ -204,6 +207,7 @@ pub fn run_scenario(sc: &Scenario, chooser: Chooser, announce: Option<&(dyn Fn(u
             .stack_size(256 << 20)
             .spawn_scoped(s, || {
                 crate::entropy::set_entropy(sc.entropy);
+                glaredb_core::verif::set_datatable_dims(sc.table_dims);
                 run_scenario_here(sc, chooser, announce)
             })
             .expect("spawn world thread")
